@@ -122,6 +122,25 @@ def password_hash(binary, pw):
 _port_state = {"pid": None, "next": 0}
 
 
+_port_locks = {}
+
+
+def _own_port(port):
+    """cross-process ownership of a port number: an abstract unix socket named after it, held until this
+    process exits (two harness processes whose blocks coincide -- pid modulo 550 -- would otherwise both find
+    the port free, start a server each, and the loser's readiness probe would reach the winner's server)"""
+    if port in _port_locks:
+        return True
+    l = socket.socket(socket.AF_UNIX, socket.SOCK_STREAM)
+    try:
+        l.bind("\0sircv-port-%d" % port)
+    except OSError:
+        l.close()
+        return False
+    _port_locks[port] = l
+    return True
+
+
 def free_port():
     """a loopback port outside the ephemeral range, from a block owned by this process (parallel workers
     never race for the same number; client source ports cannot collide with it)"""
@@ -129,10 +148,14 @@ def free_port():
     if _port_state["pid"] != pid:
         _port_state["pid"] = pid
         _port_state["next"] = 0
-    for _ in range(200):
+        _port_locks.clear()   # inherited over fork: the parent keeps them, the child takes its own
+    for attempt in range(400):
         k = _port_state["next"]
         _port_state["next"] = (k + 1) % 40
-        port = 10000 + (pid % 550) * 40 + k
+        # after one round over the own block: the neighbouring blocks
+        port = 10000 + (((pid % 550) + attempt // 40 * 7) % 550) * 40 + k
+        if not _own_port(port):
+            continue
         s = socket.socket()
         try:
             s.setsockopt(socket.SOL_SOCKET, socket.SO_REUSEADDR, 1)
@@ -141,11 +164,7 @@ def free_port():
             return port
         except OSError:
             s.close()
-    s = socket.socket()
-    s.bind(("127.0.0.1", 0))
-    p = s.getsockname()[1]
-    s.close()
-    return p
+    raise RuntimeError("no free loopback port")
 
 
 def toml_str(s):
